@@ -52,10 +52,13 @@ class BuiltinConverterProvider(ConverterProvider):
             ),
             lambda x: "Cannot create top-level coercer",
         )
-        closure_name = self._get_closure_name(request)
+        function_name = self._get_closure_name(request)
+        # name requested by user can be any string, so it is only assigned to `__name__`
+        closure_name = self._name_sanitizer.sanitize(function_name) or "converter"
         dumper_code, dumper_namespace = self._produce_code(
             signature=request.signature,
             closure_name=closure_name,
+            function_name=function_name,
             stub_function=request.stub_function,
             coercer=coercer,
         )
@@ -84,6 +87,7 @@ class BuiltinConverterProvider(ConverterProvider):
         signature: Signature,
         stub_function: Optional[Callable],
         closure_name: str,
+        function_name: str,
         coercer: Coercer,
     ) -> tuple[str, Mapping[str, object]]:
         builder = CodeBuilder()
@@ -108,7 +112,7 @@ class BuiltinConverterProvider(ConverterProvider):
         if stub_function is not None:
             builder += f"_update_wrapper({closure_name}, _stub_function)"
         builder += f"{closure_name}.__signature__ = _closure_signature"
-        builder += f"{closure_name}.__name__ = {closure_name!r}"
+        builder += f"{closure_name}.__name__ = {function_name!r}"
         return builder.string(), namespace.all_constants
 
     def _get_ctx_passing(self, ctx_parameters: Sequence[Parameter]) -> str:
